@@ -138,6 +138,13 @@ class _Fold(ast.NodeTransformer):
         if isinstance(n, ast.Call) and isinstance(n.func, ast.Name) and n.func.id == 'getattr' and len(n.args) == 2 and isinstance(n.args[0], ast.Name) \
                 and isinstance(n.args[1], ast.Constant) and isinstance(n.args[1].value, str):
             return ast.Attribute(value=n.args[0], attr=n.args[1].value, ctx=ast.Load())
+        # <dict display>.get(<literal>[, default])
+        if isinstance(n, ast.Call) and isinstance(n.func, ast.Attribute) and n.func.attr == 'get' and isinstance(n.func.value, ast.Dict) and n.args \
+                and isinstance(n.args[0], ast.Constant) and all(isinstance(k, ast.Constant) for k in n.func.value.keys):
+            for k, v in zip(n.func.value.keys, n.func.value.values):
+                if k.value == n.args[0].value and type(k.value) is type(n.args[0].value):
+                    return v
+            return n.args[1] if len(n.args) > 1 else ast.Constant(None)
         return n
 
     def visit_Subscript(self, n):
@@ -627,8 +634,66 @@ class _Exec(object):
         env['#n'] = n
         return Path(st.conds, events, env, None)
 
+    def has_effect(self, e):
+        return e is not None and any(self.effects(c) for c in _effects_postorder(e))
+
+    def short_circuit(self, s):
+        """A statement whose expression evaluates a stream effect only conditionally (`a and read()`, `x if c else read()`) is
+        rewritten into nested ifs, so that the effect belongs to the paths that really evaluate it."""
+        def mk_if(test, body, orelse):
+            n = ast.If(test=test, body=body, orelse=orelse)
+            ast.copy_location(n, s)
+            n._orig = getattr(s, '_orig', s)
+            return n
+
+        def with_value(v):
+            if isinstance(s, ast.If):
+                return None
+            if isinstance(s, ast.Return):
+                n = ast.Return(value=v)
+            elif isinstance(s, ast.Expr):
+                n = ast.Expr(value=v)
+            elif isinstance(s, ast.Assign):
+                n = ast.Assign(targets=s.targets, value=v)
+            elif isinstance(s, ast.AugAssign):
+                n = ast.AugAssign(target=s.target, op=s.op, value=v)
+            else:
+                return None
+            ast.copy_location(n, s)
+            n._orig = getattr(s, '_orig', s)
+            return n
+        if isinstance(s, ast.If):
+            t = s.test
+            if isinstance(t, ast.BoolOp) and any(self.has_effect(v) for v in t.values[1:]):
+                first = t.values[0]
+                rest = t.values[1] if len(t.values) == 2 else ast.BoolOp(op=t.op, values=t.values[1:])
+                inner = mk_if(rest, s.body, s.orelse)
+                if isinstance(t.op, ast.And):
+                    return mk_if(first, [inner], s.orelse)
+                return mk_if(first, s.body, [inner])
+            return None
+        v = getattr(s, 'value', None)
+        if isinstance(v, ast.BoolOp) and any(self.has_effect(x) for x in v.values[1:]):
+            first = v.values[0]
+            rest = v.values[1] if len(v.values) == 2 else ast.BoolOp(op=v.op, values=v.values[1:])
+            a, b = with_value(rest), with_value(first)
+            if a is None:
+                return None
+            if isinstance(v.op, ast.And):
+                return mk_if(first, [a], [b])
+            return mk_if(first, [b], [a])
+        if isinstance(v, ast.IfExp) and (self.has_effect(v.body) or self.has_effect(v.orelse)):
+            a, b = with_value(v.body), with_value(v.orelse)
+            if a is None:
+                return None
+            return mk_if(v.test, [a], [b])
+        return None
+
     def stmt(self, s, st):
         if self.effects is not None:
+            r = self.short_circuit(s)
+            if r is not None:
+                return self.stmt(r, st)
             if isinstance(s, ast.If):
                 st = self.effect_prepass([s.test], st)
             elif isinstance(s, (ast.Expr, ast.Assign, ast.AnnAssign, ast.Return)):
@@ -711,12 +776,57 @@ class _Exec(object):
             return None
         if any(ev[0] in ('store', 'loop') for p in ps for ev in p.events):
             return None
-        if not any(p.outcome[0] == 'raise' for p in ps):
-            return None
         rets = [p for p in ps if p.outcome[0] != 'raise']
+        if not any(p.outcome[0] == 'raise' for p in ps) and not any(p.conds for p in rets):
+            return None       # nothing is checked (a helper whose own checker calls were folded into its paths still carries their facts)
         if not rets or any(p.outcome[0] == 'return' and p.outcome[1] != 'None' for p in rets):
             return None
         return [p.conds for p in rets]
+
+    def guard_facts(self, call, st):
+        """`x = self.take(n)` / `self.take(n)` where the helper checks and then changes state (raises on some path, stores on
+        the others): the conditions it established *before its first store* held at the time of the call.  They are
+        recorded as historic facts (text suffixed with ` @before <helper>`), never as facts about the state afterwards.
+        -> list of condition tuples (one per distinct returning path prefix) or None."""
+        if self.resolver is None or self.depth >= 3:
+            return None
+        g = self.resolver(call)
+        if g is None or g is self.f:
+            return None
+        params = [a.arg for a in g.args.args]
+        if params and params[0] in ('self', 'cls') and isinstance(call.func, ast.Attribute):
+            params = params[1:]
+        env = {}
+        for pn, a in zip(params, call.args):
+            env[pn] = self.sx(a, st)
+        for k in call.keywords:
+            if k.arg:
+                env[k.arg] = self.sx(k.value, st)
+        if len(env) < len(params):
+            return None
+        try:
+            ps = _Exec(g, max_paths=64, resolver=self.resolver, depth=self.depth + 1, init_env=env, folder=self.folder).run()
+        except TooManyPaths:
+            return None
+        if not any(p.outcome[0] == 'raise' for p in ps) or any(ev[0] == 'loop' for p in ps for ev in p.events):
+            return None
+        out, seen = [], set()
+        for p in ps:
+            if p.outcome[0] == 'raise':
+                continue
+            k = len(p.conds)
+            for ev in p.events:
+                if ev[0] == 'store':
+                    k = min(k, ev[4]) if len(ev) > 4 and isinstance(ev[4], int) else 0
+                    break
+            facts = tuple((c[0] + ' @before ' + g.name,) + tuple(c[1:]) for c in p.conds[:k])
+            key = tuple((c[0], c[1]) for c in facts)
+            if key not in seen:
+                seen.add(key)
+                out.append(facts)
+        if not any(out):
+            return None
+        return out
 
     def _stmt(self, s, st):
         if isinstance(s, ast.Expr):
@@ -724,6 +834,8 @@ class _Exec(object):
                 return [st]
             if isinstance(s.value, ast.Call):
                 facts = self.checker_facts(s.value, st)
+                if facts is None:
+                    facts = self.guard_facts(s.value, st)
                 if facts is not None:
                     evs = self.record_calls(s.value, st)
                     return [Path(st.conds + f, st.events + tuple(evs), st.env, None) for f in facts]
@@ -763,13 +875,17 @@ class _Exec(object):
                         out.append(Path(st.conds + conds, events, env, None))
                     return out
             v = self.sx(s.value, st)
-            env = dict(st.env)
-            events = st.events + tuple(evs)
-            for tg in targets:
-                self.assign(tg, v, env, st, s)
-                if isinstance(tg, (ast.Attribute, ast.Subscript)):
-                    events = events + (('store', '%s = %s' % (ctext(subst(tg, st.env)), ctext(v)), s, v, len(st.conds), subst(tg, st.env)),)
-            return [Path(st.conds, events, env, None)]
+            hist = self.guard_facts(s.value, st) if isinstance(s.value, ast.Call) and self.resolver is not None else None
+            out = []
+            for facts in (hist or [()]):
+                env = dict(st.env)
+                events = st.events + tuple(evs)
+                for tg in targets:
+                    self.assign(tg, v, env, st, s)
+                    if isinstance(tg, (ast.Attribute, ast.Subscript)):
+                        events = events + (('store', '%s = %s' % (ctext(subst(tg, st.env)), ctext(v)), s, v, len(st.conds) + len(facts), subst(tg, st.env)),)
+                out.append(Path(st.conds + facts, events, env, None))
+            return out
         if isinstance(s, ast.AugAssign):
             evs = self.record_calls(s.value, st)
             env = dict(st.env)
@@ -778,7 +894,7 @@ class _Exec(object):
                 cur = env.get(s.target.id) or ast.Name(id=s.target.id, ctx=ast.Load())
                 env[s.target.id] = ast.BinOp(clone(cur), s.op, self.sx(s.value, st))
             else:
-                events = events + (('store', '%s %s= %s' % (ctext(subst(s.target, st.env)), type(s.op).__name__, ctext(self.sx(s.value, st))), s),)
+                events = events + (('store', '%s %s= %s' % (ctext(subst(s.target, st.env)), type(s.op).__name__, ctext(self.sx(s.value, st))), s, None, len(st.conds), subst(s.target, st.env)),)
             return [Path(st.conds, events, env, None)]
         if isinstance(s, ast.Return):
             if s.value is None:
@@ -802,6 +918,9 @@ class _Exec(object):
                 e = s.exc
                 if isinstance(e, ast.Call):
                     name = u(e.func).split('.')[-1]
+                    ef = error_factory(self.f, e.func)
+                    if ef is not None:
+                        name = u(ef[0]).split('.')[-1]      # raise <helper>(..): the class the helper constructs
                     text = ctext(self.sx(e, st))
                 else:
                     name = u(e)
@@ -1018,33 +1137,79 @@ _CACHE = {}
 _DEPTH = [0]
 
 
-def paths(f, max_paths=MAX_PATHS, positional=False, resolver=None, effects=None):
+def literal_consts(f):
+    """{name: Constant} for the module-level names read by f that are bound once, at module level, to a literal"""
+    mod = getattr(f, '_mod', None)
+    if mod is None:
+        return {}
+    local = _assigned(f.body) | {a.arg for a in f.args.args + f.args.kwonlyargs}
+    out = {}
+    for n in ast.walk(f):
+        if isinstance(n, ast.Name) and isinstance(n.ctx, ast.Load) and n.id not in local and n.id not in out:
+            r = mod.resolve_name(n.id)
+            if isinstance(r, tuple) and r[0] == 'const' and isinstance(r[1], ast.Constant) and isinstance(r[1].value, (str, int, bool, type(None))):
+                out[n.id] = r[1]
+    return out
+
+
+def paths(f, max_paths=MAX_PATHS, positional=False, resolver=None, effects=None, consts=False):
     """Path summaries of function f (cached per function node).  positional=True names the parameters
-    ARG0, ARG1, ... (after self) so that summaries do not depend on parameter names."""
-    key = (id(f), positional, id(resolver), id(effects))
+    ARG0, ARG1, ... (after self) so that summaries do not depend on parameter names.  consts=True reads module-level
+    literal constants by value (`x != UNBOUND` is the same condition as `x != 'MIN'`)."""
+    key = (id(f), positional, id(resolver), id(effects), consts)
     if key not in _CACHE:
         try:
             _DEPTH[0] += 1
             try:
-                _CACHE[key] = (f, _Exec(f, max_paths=max_paths, positional=positional, resolver=resolver, depth=_DEPTH[0], effects=effects).run())
+                _CACHE[key] = (f, _Exec(f, max_paths=max_paths, positional=positional, resolver=resolver, depth=_DEPTH[0], effects=effects,
+                                        init_env=(literal_consts(f) if consts else None)).run(), resolver, effects)
             finally:
                 _DEPTH[0] -= 1
         except TooManyPaths:
-            _CACHE[key] = (f, None)
+            _CACHE[key] = (f, None, resolver, effects)     # the key holds ids: keep the objects alive
     return _CACHE[key][1]
 
 
-def class_resolver(cls):
-    """resolver for paths(): self.m(...) -> the method m of cls (MRO), f(...) -> module-level function of cls's module"""
+_RESOLVERS = {}
+
+
+def class_resolver(cls, keep=()):
+    """resolver for paths(): self.m(...) -> the method m of cls (MRO), f(...) -> module-level function of cls's module.
+    keep: names of methods that are not looked into (the predicates a rule reasons about, e.g. is_in_range).
+    One resolver object per (class, keep), so that path summaries are cached across rules."""
+    key = (id(cls), tuple(keep))
+    if key in _RESOLVERS and _RESOLVERS[key][0] is cls:
+        return _RESOLVERS[key][1]
+
     def resolve(call):
         fn = call.func
+        if keep and _callee_name(call) in keep:
+            return None
         if isinstance(fn, ast.Attribute) and isinstance(fn.value, ast.Name) and fn.value.id == 'self':
             r = cls.find_method(fn.attr)
+            return r[1] if r else None
+        if isinstance(fn, ast.Attribute) and isinstance(fn.value, ast.Call) and isinstance(fn.value.func, ast.Name) and fn.value.func.id == 'super':
+            # super(C, self).m(..) / super().m(..): the next definition of m after C in the MRO of the analysed class
+            after = None
+            if fn.value.args and isinstance(fn.value.args[0], ast.Name):
+                r0 = cls.mod.resolve_name(fn.value.args[0].id)
+                after = r0 if hasattr(r0, 'mro') else None
+                if after is None:
+                    after = next((c for c in cls.mro() if c.name == fn.value.args[0].id), None)
+            else:
+                cur = getattr(call, '_parent', None)
+                while cur is not None and not isinstance(cur, ast.FunctionDef):
+                    cur = getattr(cur, '_parent', None)
+                after = getattr(cur, '_cls', None) if cur is not None else None
+            if after is None or after not in cls.mro():
+                return None
+            r = cls.find_method(fn.attr, after=after)
             return r[1] if r else None
         if isinstance(fn, ast.Name):
             r = cls.mod.resolve_name(fn.id)
             return r if isinstance(r, ast.FunctionDef) else None
         return None
+    _RESOLVERS[key] = (cls, resolve)
     return resolve
 
 
@@ -1134,6 +1299,33 @@ def callee_name(call):
     return _callee_name(call)
 
 
+def error_factory(f, fn):
+    """`raise helper(...)`: when `fn` (the callee expression of the raised call, in function f) is a function of f's module or a
+    method of f's class all of whose returns construct an exception, the expression that names that exception class (and the
+    function), else None."""
+    g = None
+    mod = getattr(f, '_mod', None)
+    cls = getattr(f, '_cls', None)
+    if isinstance(fn, ast.Name) and mod is not None:
+        r = mod.resolve_name(fn.id)
+        g = r if isinstance(r, ast.FunctionDef) else None
+    elif isinstance(fn, ast.Attribute) and isinstance(fn.value, ast.Name) and fn.value.id in ('self', 'cls') and cls is not None:
+        r = cls.find_method(fn.attr)
+        g = r[1] if r else None
+    elif isinstance(fn, ast.Attribute) and mod is not None:
+        r = mod.resolve(fn)
+        g = r if isinstance(r, ast.FunctionDef) else None
+    if g is None:
+        return None
+    rets = [x for x in walk_no_nested(g) if isinstance(x, ast.Return) and x.value is not None]
+    if not rets or not all(isinstance(x.value, ast.Call) for x in rets):
+        return None
+    names = {u(x.value.func) for x in rets}
+    if len(names) != 1:
+        return None
+    return rets[0].value.func, g
+
+
 def method_calls(f, name, view=None):
     """Calls of a method/function called `name` in f, including calls through a local bound-method alias
     (`read = self.read_byte; read()`)."""
@@ -1147,4 +1339,27 @@ def method_calls(f, name, view=None):
             fn = view.alias[fn.id]
         if (isinstance(fn, ast.Attribute) and fn.attr == name) or (isinstance(fn, ast.Name) and fn.id == name):
             out.append(n)
+    return out
+
+
+def raised_names(stmts, f):
+    """Names of the exception classes raised by the statements (a handler body, say) of function f: `raise E(..)`, `raise E`,
+    and `raise factory(..)` where the factory's returns all construct one exception class.  A bare re-raise gives 'reraise'."""
+    out = set()
+    for s in stmts:
+        for r in ast.walk(s):
+            if not isinstance(r, ast.Raise):
+                continue
+            if r.exc is None:
+                out.add('reraise')
+                continue
+            e = r.exc
+            if isinstance(e, ast.Call):
+                ef = error_factory(f, e.func)
+                if ef is not None:
+                    out.add(u(ef[0]).split('.')[-1])
+                else:
+                    out.add(u(e.func).split('.')[-1])
+            else:
+                out.add(u(e).split('.')[-1])
     return out
